@@ -3,7 +3,7 @@
    Only ExtrOcamlBasic is used: nat, N, Z, positive stay the extracted inductives. *)
 From Coq Require Import List ZArith NArith Extraction ExtrOcamlBasic.
 From LMBase Require Import Res ListX IEEE.
-From LMScore Require Import ScoreModel SimdModel GenAvx2 ScoreCheck.
+From LMScore Require Import ScoreModel SimdModel GenAvx2 GenLane4 ScoreCheck.
 
 Definition x_of_bits : Z -> f32 := F32.of_bits.
 Definition x_to_bits : f32 -> Z := F32.to_bits.
@@ -14,15 +14,17 @@ Definition x_score_def (N : nat) := @score_def f32 F32.add F32.zero N.
 Definition x_generic_rows_into (C : nat) := @generic_rows_into f32 F32.add F32.zero C.
 Definition x_avx2_rows_into (K : nat) :=
   @avx2_rows_into f32 F32.add F32.zero avx2_permute_consts avx2_gather_consts K.
-Definition x_sse2_rows_into (C : nat) := @sse2_rows_into f32 F32.add F32.zero C.
+Definition x_sse2_rows_into (C : nat) := @sse2_rows_into f32 F32.add F32.zero sse2_consts C.
 Definition x_dispatch_rows_into (K : nat) :=
-  @dispatch_rows_into f32 F32.add F32.zero dispatch_score_f32 avx2_permute_consts avx2_gather_consts K.
+  @dispatch_rows_into f32 F32.add F32.zero dispatch_score_f32 avx2_permute_consts avx2_gather_consts
+                      sse2_consts K.
 Definition x_score_with := @score_with f32.
 Definition x_unstripe (C : nat) := @sc_unstripe f32 C.
 Definition x_sc_get := @sc_get f32.
 Definition x_score_position := @score_position f32 F32.add F32.zero.
 Definition x_layout_ok : bool :=
-  andb (avx2_layout_ok avx2_permute_consts) (avx2_layout_ok avx2_gather_consts).
+  andb (andb (avx2_layout_ok avx2_permute_consts) (avx2_layout_ok avx2_gather_consts))
+       (lane4_layout_ok sse2_consts).
 
 Extraction Language OCaml.
 Extraction "score_model.ml"
